@@ -352,3 +352,60 @@ def parse_indices(out, tag):
     if not body:
         return []
     return [int(x.strip().replace("%nat", "").replace("%N", "")) for x in body.replace("\n", " ").split(";") if x.strip()]
+
+
+def _probe_reproduces(impl, pr):
+    """(reproduces?, what was seen)"""
+    kind = pr["type"]
+    fn = getattr(impl.M, pr.get("entry", "parse")) if kind != "format_gives" else None
+    if kind in ("parse_gives", "rejects", "raises"):
+        opts = dict(pr.get("options", {}))
+        if opts.get("calls") == "normal_op":
+            opts["calls"] = impl.M.normal_op
+        st, got = impl.outcome(fn, pr["sql"], **opts)
+        rep = (kind == "rejects" and st == "pe") or (kind == "raises" and st == "exc") or (kind == "parse_gives" and st == "ok" and canon(got) == canon(pr["bad"]))
+        return rep, (got if st == "ok" else [st, str(got)])
+    if kind == "not_accepted":
+        # a text the property says is a valid input with a definite result: the finding reproduces while the call fails (either kind of exception)
+        st, got = impl.outcome(fn, pr["sql"])
+        return st != "ok", (got if st == "ok" else [st, str(got)])
+    if kind == "roundtrip_fails":
+        st, t = impl.outcome(fn, pr["sql"])
+        st2, txt = impl.outcome(impl.M.format, t) if st == "ok" else ("skip", None)
+        st3, back = impl.outcome(fn, txt) if st2 == "ok" else ("skip", None)
+        return st == "ok" and (st2 != "ok" or st3 != "ok" or canon(back) != canon(t)), (txt if st2 == "ok" else [st2, str(txt)])
+    if kind == "pair_differs":
+        # two spellings that the property says mean the same: the finding reproduces while their outcomes differ
+        st, t = impl.outcome(fn, pr["sql"])
+        st2, t2 = impl.outcome(fn, pr["sql2"])
+        return st == "ok" and (st2 != "ok" or canon(t) != canon(t2)), (t2 if st2 == "ok" else [st2, str(t2)])
+    if kind == "tree_roundtrip_fails":
+        st2, txt = impl.outcome(impl.M.format, pr["tree"], **pr.get("options", {}))
+        st3, back = impl.outcome(fn, txt) if st2 == "ok" else ("skip", None)
+        return st2 != "ok" or st3 != "ok" or canon(back) != canon(pr["tree"]), (txt if st2 == "ok" else [st2, str(txt)])
+    if kind == "format_gives":
+        st, txt = impl.outcome(impl.M.format, pr["tree"], **pr.get("options", {}))
+        return st == "ok" and txt == pr["bad"], (txt if st == "ok" else [st, str(txt)])
+    return False, "unknown probe type " + kind
+
+
+def replay_probes(ctx):
+    """findings that carry probes (witnesses that are not produced by the generators) are replayed on every run:
+       the KNOWN-FINDING line is printed only while a witness still fails in the listed way"""
+    import impl
+    for f in load_findings().get("findings", []):
+        probes = f.get("probes") or ([f["probe"]] if f.get("probe") else [])
+        if f.get("property") != ctx.pid or not probes:
+            continue
+        hits, seen = 0, None
+        for pr in probes:
+            try:
+                rep, seen = _probe_reproduces(impl, pr)
+            except Exception as e:
+                rep, seen = False, repr(e)
+            hits += bool(rep)
+        ctx.count(len(probes), ("probe", f["key"]))
+        if hits:
+            ctx.known(f["key"], "%s e.g. %s (%d of %d listed witnesses reproduce)" % (f["what"], f["witness"], hits, len(probes)))
+        else:
+            ctx.log("NOTE: listed finding %s no longer reproduces (now: %s)" % (f["key"], short(seen, 200)))
